@@ -184,7 +184,7 @@ def save_tiff(
         else:
             scaler_factor = 1
 
-        data = (data * scaler_factor).astype(dtype)
+        data = (data * np.float64(scaler_factor)).astype(dtype)  # not in half precision
 
     if compression is not False:
         kwargs.setdefault("compression", compression)
